@@ -348,6 +348,9 @@ def _damaged_repeat(ctx, thorough):
                 for gap in ([("turn", 1)], [("adv", 2)], []):
                     scripts.append([("net", "accept"), ("open",), ("adv", 8), ("peerbytes", fr.hex())] + gap + [("peerbytes", dmg.hex()), ("adv", 8), ("heal",)])
                     meta.append((kind, fr, dmg))
+        if len(scripts) > (4000 if thorough else 900):
+            keep = sorted(ctx.rng.sample(range(len(scripts)), 4000 if thorough else 900))
+            scripts, meta = [scripts[i] for i in keep], [meta[i] for i in keep]
         spec = ctx.oracle(["crc " + _hex(d[covered_from:-2]) for _, _, d in meta]) if meta else []
         for (kind, fr, dmg), script, r, sp in zip(meta, scripts, sockcheck.run_scripts(scripts, gen=gen), spec):
             if "error" in r:
